@@ -20,6 +20,8 @@ def run(prog: Program, rep: Report):
     # R2 = per-call state: the C01 rules instantiated under this property
     r1_raised_before_start(prog, rep, pf, "C03.R2a")
     r9_call_local(prog, rep, pf, "C03.R2b")
+    from .c01 import counter_reset_per_call
+    counter_reset_per_call(prog, rep, pf, "C03.R2c")
     r3_retire(prog, rep, pf)
     r4_replace_order(prog, rep, pf)
     r5_wrapped(prog, rep, pf)
